@@ -57,6 +57,10 @@ type Case struct {
 	Err2     Payload  `json:"err2"`
 	// file kind
 	Op      string  `json:"op,omitempty"` // "|>" "| >" "-> fwrite" ">>" "| fappend" "-> fappend"
+	// OpFlag: a flag of the file writers placed in front of the file name
+	// ("" | -w | --wait-for-eof | -i | --ignore-pipeline-check); none of them
+	// changes what ends up in the file.
+	OpFlag string `json:"op_flag,omitempty"`
 	HasPrev bool    `json:"has_prev,omitempty"`
 	Prev    Payload `json:"prev"`
 }
@@ -241,13 +245,17 @@ func (c Case) target() string { return filepath.Join(workDir, "target.bin") }
 func (c Case) Source() string {
 	stmt := c.emitterSrc()
 	if c.Kind == "file" {
+		tgt := c.target()
+		if c.OpFlag != "" {
+			tgt = c.OpFlag + " " + tgt
+		}
 		switch c.Op {
 		case "|>", ">>":
-			stmt += " " + c.Op + " " + c.target()
+			stmt += " " + c.Op + " " + tgt
 		case "| >", "| fappend":
-			stmt += " | " + c.Op[2:] + " " + c.target()
+			stmt += " | " + c.Op[2:] + " " + tgt
 		case "-> fwrite", "-> fappend":
-			stmt += " " + c.Op + " " + c.target()
+			stmt += " " + c.Op + " " + tgt
 		default:
 			panic("bad op " + c.Op)
 		}
@@ -480,6 +488,7 @@ func genFile(t *rapid.T) Case {
 	c.Redir = genRedir(t)
 	c.Context = rapid.SampledFrom([]string{"top", "top", "function", "try"}).Draw(t, "context")
 	c.Op = rapid.SampledFrom([]string{"|>", "|>", "| >", "-> fwrite", ">>", ">>", "| fappend", "-> fappend"}).Draw(t, "op")
+	c.OpFlag = rapid.SampledFrom([]string{"", "", "", "-w", "--wait-for-eof", "-i", "--ignore-pipeline-check"}).Draw(t, "opflag")
 	if c.Emitter == "out" {
 		c.Text = rapid.SampledFrom(words).Draw(t, "text")
 	} else {
